@@ -248,11 +248,13 @@ class CountingCuckooFilter(CuckooFilter):
         # either move everything around or hit the maximum number of swaps
         idx = random.choice([idx_1, idx_2])
         prv_bin = CountingCuckooBin(fingerprint, count)
+        undo = []  # (bucket, slot) of every swap, so that a failed insert does not lose a stored bin
         for _ in range(self.max_swaps):
             # select one element to be swapped out...
             swap_elm = random.randint(0, self.bucket_size - 1)
             swap_finger = self.buckets[idx][swap_elm]
             prv_bin, self.buckets[idx][swap_elm] = swap_finger, prv_bin
+            undo.append((idx, swap_elm))
 
             # now find another place to put this fingerprint
             index_1, index_2 = self._indicies_from_fingerprint(prv_bin.finger)
@@ -264,7 +266,9 @@ class CountingCuckooFilter(CuckooFilter):
                 self.__unique_elements += 1
                 return None
 
-        # if we got here we have an error... we might need to know what is left
+        # if we got here we have an error: swap everything back, what is left is the new bin
+        for bucket, slot in reversed(undo):
+            prv_bin, self.buckets[bucket][slot] = self.buckets[bucket][slot], prv_bin
         return prv_bin
 
     def _check_if_present(self, idx_1: int, idx_2: int, fingerprint: int) -> Union[int, None]:
@@ -308,6 +312,7 @@ class CountingCuckooFilter(CuckooFilter):
     def _expand_logic(self, extra_fingerprint: "CountingCuckooBin") -> None:
         """the logic to acutally expand the cuckoo filter"""
         # get all the fingerprints
+        before = (self._cuckoo_capacity, self._buckets, self._inserted_elements, self.__unique_elements)
         fingerprints = self._setup_expand(extra_fingerprint)
         self.__unique_elements = 0  # this needs to be reset!
 
@@ -315,6 +320,8 @@ class CountingCuckooFilter(CuckooFilter):
             idx_1, idx_2 = self._indicies_from_fingerprint(elm.finger)
             res = self._insert_fingerprint_alt(elm.finger, idx_1, idx_2, elm.count)
             if res is not None:  # again, this *shouldn't* happen
+                # keep the table as it was: a failed expansion must not lose bins
+                self._cuckoo_capacity, self._buckets, self._inserted_elements, self.__unique_elements = before
                 msg = "The CountingCuckooFilter failed to expand"
                 raise CuckooFilterFullError(msg)
 
